@@ -40,11 +40,17 @@ The following changes have ALREADY been made by earlier participants for this pr
 Mechanisms that earlier rounds have used a lot and that you should therefore AVOID: caches / memoisation and shared mutable
 defaults, buffers kept instead of copied, behaviour depending on --debug/-q verbosity or on `python -O`, fixed size limits
 (8 kB, 32768, 65535, 80 columns, 200 levels), one-shot iterables, empty-string arguments, byte-order marks, bare-CR line ends,
-missing final newlines. Look for something else: an off-by-one in an index or slice, a changed regular expression, a wrong
-operator precedence or comparison, a reordered pair of steps, a changed default, an exception swallowed or raised in the wrong
-place, a changed iteration order, a unit/encoding mix-up, an interaction between two options or two features, arithmetic on
-addresses or offsets, sign/width handling, Unicode vs bytes handling, platform/path handling, a subtle change in an algorithm's
-tie-breaking - in code that the existing tests happen not to pin down. Read the code and the tests first to find what is NOT pinned.
+missing final newlines, file names with extra dots, symbolic links, backslash path separators, undecodable bytes, NUL
+characters, non-ASCII package/file names, two-digit tab selectors, side files created on a first run, version-0 carts.
+Look for something else, for example: a mask, shift or bit position that is off by one; signed/unsigned or 7-bit/8-bit handling;
+an inclusive/exclusive range end; integer division or rounding; the order in which two sections / options / passes are applied;
+an interaction between two command-line options or two library features that are each fine alone; a module-level table or
+constant that gets an entry too many or too few; an exception of a different type or raised at a different moment; a default
+argument whose value changes; sorting / iteration order; greedy vs non-greedy matching or an anchor in a regular expression;
+a token or AST node kind handled by a general branch instead of its own; a state flag that is not reset between two phases of
+ONE call; handling of the very first / very last element; a cart version number (8, 16, 29, 30, 33, 41...) used as a threshold;
+label or header handling; an assumption about what comes before or after a token - in code that the existing tests happen not
+to pin down. Read the code and the tests first to find what is NOT pinned.
 
 For each change N in 1..3 write, under %(wt)s/_seeded/%(pid)s-r%(rnd)s-N/ :
   patch.diff  - `git diff` of the change against clean HEAD (must apply with `git apply` on a clean checkout);
